@@ -211,6 +211,7 @@ func init() {
 		ai := p.attrIndex(rs, ci)
 		checkHeightInBatch(c, ai)
 		c16ResumeSafe(c, "prune-resume", ci, rs)
+		c05ErrorNotDropped(c)
 	})
 }
 
